@@ -47,37 +47,68 @@ func componentOf(c *Ctx, fn *ssa.Function, v ssa.Value) (side, comp int, ok bool
 	return 0, 0, false
 }
 
+// absComp is one component (0 year .. 5 second) of one of the two dates being compared.
+type absComp struct{ side, comp int }
+
 // lexOrderTable checks that fn decides the strict lexicographic order (before: a < b, after: a > b)
-// on all 3^6 orderings of the six components.
+// on all 3^6 orderings of the six components. The evaluator follows fn (delegations inline); the
+// components are abstract values that can only be compared, like with like, across the two dates.
 func lexOrderTable(c *Ctx, fn *ssa.Function, wantAfter bool) (n int, problem string) {
-	paths, ok := enumPaths(fn.Blocks[0], nil, 4096)
-	if !ok {
-		return 0, "the function is not loop-free or has too many paths"
-	}
-	evalCmp := func(p *cfgPath, cond ssa.Value, o []int) (bool, string) {
-		cond = p.resolve(cond)
-		if b, isB := constBool(cond); isB {
-			return b, ""
-		}
-		bo, isBin := cond.(*ssa.BinOp)
-		if !isBin {
-			return false, "condition is not a comparison of date components: " + cond.String()
-		}
-		s1, c1, ok1 := componentOf(c, fn, bo.X)
-		s2, c2, ok2 := componentOf(c, fn, bo.Y)
-		if !ok1 || !ok2 {
-			return false, "comparison operand is not a date component of one of the two dates: " + bo.String()
-		}
-		if c1 != c2 || s1 == s2 {
-			return false, fmt.Sprintf("comparison mixes components (%d of date %d with %d of date %d): %s", c1, s1, c2, s2, bo.String())
-		}
-		rel := o[c1] // relation of date 0's component to date 1's
-		if s1 == 1 {
-			rel = -rel
-		}
-		return cmpHolds(rel, bo.Op), ""
-	}
 	o := make([]int, 6)
+	var leaf leafX
+	leaf = func(fr *evalFrame, v ssa.Value) (interface{}, bool) {
+		if fr.parent == nil {
+			if p, isP := v.(*ssa.Parameter); isP && isIntType(p.Type()) {
+				k := 0
+				for _, q := range fn.Params {
+					if isIntType(q.Type()) {
+						if q == p {
+							return absComp{k / 6, k % 6}, true
+						}
+						k++
+					}
+				}
+			}
+		}
+		if recv, field, isG := getterField(c, v); isG {
+			if ci, known := solarComponent[field]; known {
+				if ofr, ov := fr.origin(recv); ofr.parent == nil {
+					for i, q := range fn.Params {
+						if ov == ssa.Value(q) {
+							return absComp{i, ci}, true
+						}
+					}
+				}
+			}
+		}
+		if bo, isBin := v.(*ssa.BinOp); isBin && isIntType(bo.X.Type()) {
+			switch bo.Op {
+			case token.LSS, token.LEQ, token.GTR, token.GEQ, token.EQL, token.NEQ:
+				x, ok1 := evalWith(fr, bo.X, leaf)
+				y, ok2 := evalWith(fr, bo.Y, leaf)
+				cx, isX := x.(absComp)
+				cy, isY := y.(absComp)
+				if !ok1 || !ok2 || !isX || !isY {
+					if problem == "" {
+						problem = "comparison operand is not a date component of one of the two dates: " + bo.String()
+					}
+					return nil, false
+				}
+				if cx.comp != cy.comp || cx.side == cy.side {
+					if problem == "" {
+						problem = fmt.Sprintf("comparison mixes components (%d of date %d with %d of date %d): %s", cx.comp, cx.side, cy.comp, cy.side, bo.String())
+					}
+					return nil, false
+				}
+				rel := o[cx.comp] // relation of date 0's component to date 1's
+				if cx.side == 1 {
+					rel = -rel
+				}
+				return cmpHolds(rel, bo.Op), true
+			}
+		}
+		return nil, false
+	}
 	var rec func(i int) string
 	rec = func(i int) string {
 		if i < 6 {
@@ -90,37 +121,17 @@ func lexOrderTable(c *Ctx, fn *ssa.Function, wantAfter bool) (n int, problem str
 			return ""
 		}
 		n++
-		feasible := 0
-		var result, have bool
-		for pi := range paths {
-			p := &paths[pi]
-			okPath := true
-			for _, pc := range p.conds {
-				v, msg := evalCmp(p, pc.cond, o)
-				if msg != "" {
-					return msg
-				}
-				if v != pc.truth {
-					okPath = false
-					break
-				}
-			}
-			if !okPath {
-				continue
-			}
-			feasible++
-			ret, isRet := p.end.Instrs[len(p.end.Instrs)-1].(*ssa.Return)
-			if !isRet || len(ret.Results) != 1 {
-				return "a path does not end in a return of one value"
-			}
-			v, msg := evalCmp(p, ret.Results[0], o)
-			if msg != "" {
-				return msg
-			}
-			result, have = v, true
+		ev := &evaluator{inline: inlineLibrary, leaf: leaf}
+		res, outcome := ev.run(fn, nil, nil, nil, nil)
+		if problem != "" {
+			return problem
 		}
-		if feasible != 1 || !have {
-			return fmt.Sprintf("ordering %v selects %d paths (expected exactly one)", o, feasible)
+		if outcome != "return" || len(res) != 1 {
+			return "the function could not be followed: " + outcome + " " + ev.fail
+		}
+		result, isB := res[0].(bool)
+		if !isB {
+			return "the result is not a boolean"
 		}
 		want := false
 		for k := 0; k < 6; k++ {
@@ -144,11 +155,11 @@ func lexOrderTable(c *Ctx, fn *ssa.Function, wantAfter bool) (n int, problem str
 
 func r04_1(c *Ctx, r *Report) {
 	const rule = "R04.1"
-	r.rule(rule, "IsBefore / IsAfter are the strict lexicographic orders on (year, month, day, hour, minute, second). The functions touch their operands only through integer comparisons of like components; all 3^6 component orderings are enumerated, the unique feasible CFG path is followed and its returned constant (or final comparison) is compared with the lexicographic order. The method Solar.IsBefore must delegate to SolarUtil.IsBefore with (own six fields, other's six fields) in order.")
+	r.rule(rule, "IsBefore / IsAfter are the strict lexicographic orders on (year, month, day, hour, minute, second). The functions touch their operands only through integer comparisons of like components; all 3^6 component orderings are enumerated, the evaluator follows the function (a delegation to another of them is read inline) with the components as abstract values and the result is compared with the lexicographic order; this is done for SolarUtil.IsBefore, Solar.IsBefore and Solar.IsAfter.")
 	for _, t := range []struct {
 		name  string
 		after bool
-	}{{"SolarUtil.IsBefore", false}, {"calendar.(*Solar).IsAfter", true}} {
+	}{{"SolarUtil.IsBefore", false}, {"calendar.(*Solar).IsBefore", false}, {"calendar.(*Solar).IsAfter", true}} {
 		fn := c.Fn(r, rule, t.name)
 		if fn == nil {
 			continue
@@ -159,10 +170,6 @@ func r04_1(c *Ctx, r *Report) {
 		} else {
 			r.bad(rule, t.name+" is the strict lexicographic order", c.fnPos(fn), problem)
 		}
-	}
-	if fn := c.Fn(r, rule, "calendar.(*Solar).IsBefore"); fn != nil {
-		want := []string{"p0.year", "p0.month", "p0.day", "p0.hour", "p0.minute", "p0.second", "p1.year", "p1.month", "p1.day", "p1.hour", "p1.minute", "p1.second"}
-		checkDelegationArgs(c, r, rule, fn, "SolarUtil.IsBefore", want)
 	}
 }
 
